@@ -119,5 +119,9 @@ if __name__ == "__main__":
     elif cmd == "runall":
         for sid in sorted(os.listdir(SEEDED)):
             res = run(sid)
+            with open(os.path.join(SEEDED, sid, "checks.txt"), "w") as fh:
+                for p, x in res.items():
+                    if isinstance(x, dict):
+                        fh.write("%-5s rc=%s %s\n" % (p, x.get("rc"), "; ".join(x.get("keys", []))))
             caught = [p for p, x in res.items() if isinstance(x, dict) and x.get("rc") == 1]
             print("%-28s caught by: %s" % (sid, ", ".join(caught) or "NONE"))
